@@ -404,26 +404,65 @@ def methodSig : String → String → Option Int
   | "closure", "args" => some 0 | "closure", "invoke" => some 1
   | _, _ => none
 
-/-- the method bodies; arity was checked by the caller (`MethodCall` in `GenerateFunc`) -/
-def methodBody (ap : Apply) (k : Nat) (name : String) (recv : Val) (args : List Val) : R Val :=
-  match recv, name, args with
-  | .list l, "map", [f] => if isClosN f 1 then .ok (.list (.map f l)) else .err
-  | .list l, "accept", [f] => if isClosN f 1 then .ok (.list (.accept f l)) else .err
-  | .list l, "top", [.int n] => .ok (.list (.top n l))
-  | .list _, "top", [_] => .err
-  | .list l, "skip", [.int n] => .ok (.list (.skip n l))
-  | .list _, "skip", [_] => .err
-  | .list l, "size", [] => do let xs ← force ap k l; pure (.int xs.length)
-  | .list l, "eval", [] => do let xs ← force ap k l; pure (.list (.items xs))
-  | .list l, "string", [] => do let s ← toStr ap k (.list l); pure (.str s)
-  | .list l, "first", [] => do
+/-! The method bodies, one function per method name (receiver type and argument shapes are matched
+inside); `methodBody` dispatches on the name. Arity was checked by the caller (`MethodCall` in
+`GenerateFunc`). Receiver/argument combinations that are not modelled answer `unmodelled`. -/
+
+def mMap (ap : Apply) (k : Nat) : Val → List Val → R Val
+  | .list l, [f] => if isClosN f 1 then .ok (.list (.map f l)) else .err
+  | .map kvs, [f] => if isClosN f 2 then do let r ← mapMapLoop ap f k kvs; pure (.map r) else .err
+  | _, _ => .unmodelled
+
+def mAccept (ap : Apply) (k : Nat) : Val → List Val → R Val
+  | .list l, [f] => if isClosN f 1 then .ok (.list (.accept f l)) else .err
+  | .map kvs, [f] => if isClosN f 2 then do let r ← mapAcceptLoop ap f k kvs; pure (.map r) else .err
+  | _, _ => .unmodelled
+
+def mTop : Val → List Val → R Val
+  | .list l, [.int n] => .ok (.list (.top n l))
+  | .list _, [_] => .err
+  | _, _ => .unmodelled
+
+def mSkip : Val → List Val → R Val
+  | .list l, [.int n] => .ok (.list (.skip n l))
+  | .list _, [_] => .err
+  | _, _ => .unmodelled
+
+def mSize (ap : Apply) (k : Nat) : Val → List Val → R Val
+  | .list l, [] => do let xs ← force ap k l; pure (.int xs.length)
+  | .map kvs, [] => .ok (.int kvs.length)
+  | _, _ => .unmodelled
+
+def mEval (ap : Apply) (k : Nat) : Val → List Val → R Val
+  | .list l, [] => do let xs ← force ap k l; pure (.list (.items xs))
+  | .map kvs, [] => .ok (.map kvs)
+  | _, _ => .unmodelled
+
+def mString (ap : Apply) (k : Nat) : Val → List Val → R Val
+  | .list l, [] => do let s ← toStr ap k (.list l); pure (.str s)
+  | .map kvs, [] => do let s ← toStr ap k (.map kvs); pure (.str s)
+  | .str s, [] => .ok (.str s)
+  | .int i, [] => .ok (.str (toString i))
+  | .flt _, [] => .unmodelled
+  | .bool b, [] => .ok (.str (if b then "true" else "false"))
+  | _, _ => .unmodelled
+
+def mFirst (ap : Apply) (k : Nat) : Val → List Val → R Val
+  | .list l, [] =>
       match k with
       | 0 => .fuel
-      | k+1 => match ← uncons ap k l with
+      | k+1 => do
+        match ← uncons ap k l with
         | none => .err
         | some (x, _) => pure x
-  | .list l, "last", [] => lastLoop ap k none l
-  | .list l, "reduce", [f] =>
+  | _, _ => .unmodelled
+
+def mLast (ap : Apply) (k : Nat) : Val → List Val → R Val
+  | .list l, [] => lastLoop ap k none l
+  | _, _ => .unmodelled
+
+def mReduce (ap : Apply) (k : Nat) : Val → List Val → R Val
+  | .list l, [f] =>
       if !isClosN f 2 then .err else
       match k with
       | 0 => .fuel
@@ -431,51 +470,108 @@ def methodBody (ap : Apply) (k : Nat) (name : String) (recv : Val) (args : List 
         match ← uncons ap k l with
         | none => .err
         | some (x, l') => reduceLoop ap f k x l'
-  | .list l, "mapReduce", [init, f] => if isClosN f 2 then reduceLoop ap f k init l else .err
-  | .list l, "sum", [] =>
+  | _, _ => .unmodelled
+
+def mMapReduce (ap : Apply) (k : Nat) : Val → List Val → R Val
+  | .list l, [init, f] => if isClosN f 2 then reduceLoop ap f k init l else .err
+  | _, _ => .unmodelled
+
+def mSum (ap : Apply) (k : Nat) : Val → List Val → R Val
+  | .list l, [] =>
       match k with
       | 0 => .fuel
       | k+1 => do
         match ← uncons ap k l with
         | none => .err
         | some (x, l') => sumLoop ap k x l'
-  | .list l, "append", [x] => do let xs ← force ap k l; pure (.list (.items (xs ++ [x])))
-  | .list l, "reverse", [] => do let xs ← force ap k l; pure (.list (.items xs.reverse))
-  | .list l, "indexWhere", [f] =>
+  | _, _ => .unmodelled
+
+def mAppend (ap : Apply) (k : Nat) : Val → List Val → R Val
+  | .list l, [x] => do let xs ← force ap k l; pure (.list (.items (xs ++ [x])))
+  | _, _ => .unmodelled
+
+def mReverse (ap : Apply) (k : Nat) : Val → List Val → R Val
+  | .list l, [] => do let xs ← force ap k l; pure (.list (.items xs.reverse))
+  | _, _ => .unmodelled
+
+def mIndexWhere (ap : Apply) (k : Nat) : Val → List Val → R Val
+  | .list l, [f] =>
       if !isClosN f 1 then .err else do
       match ← findLoop ap f k 0 l with
       | some i => pure (.int i)
       | none => pure (.int (-1))
-  | .list l, "present", [f] =>
+  | _, _ => .unmodelled
+
+def mPresent (ap : Apply) (k : Nat) : Val → List Val → R Val
+  | .list l, [f] =>
       if !isClosN f 1 then .err else do
       match ← findLoop ap f k 0 l with
       | some _ => pure (.bool true)
       | none => pure (.bool false)
-  | .map kvs, "get", [.str key] => R.ofOption (mapGet kvs key)
-  | .map _, "get", [_] => .err
-  | .map kvs, "put", [.str key, v] => if (mapGet kvs key).isSome then .err else .ok (.map ((key, v) :: kvs))
-  | .map _, "put", [_, _] => .err
-  | .map kvs, "size", [] => .ok (.int kvs.length)
-  | .map kvs, "eval", [] => .ok (.map kvs)
-  | .map kvs, "isAvail", keys => do let r ← allStrKeysPresent kvs keys; pure (.bool r)
-  | .map kvs, "map", [f] => if isClosN f 2 then do let r ← mapMapLoop ap f k kvs; pure (.map r) else .err
-  | .map kvs, "accept", [f] => if isClosN f 2 then do let r ← mapAcceptLoop ap f k kvs; pure (.map r) else .err
-  | .map kvs, "string", [] => do let s ← toStr ap k (.map kvs); pure (.str s)
-  | .str s, "len", [] => .ok (.int s.utf8ByteSize)
-  | .str s, "string", [] => .ok (.str s)
-  | .str s, "contains", [.str sub] => .ok (.bool (strContains s sub))
-  | .str _, "contains", [_] => .err
-  | .int i, "string", [] => .ok (.str (toString i))
-  | .flt _, "string", [] => .unmodelled
-  | .bool b, "string", [] => .ok (.str (if b then "true" else "false"))
-  | v, "args", [] => match v.closArity with | some n => .ok (.int n) | none => .unmodelled
-  | v, "invoke", [.list l] =>
+  | _, _ => .unmodelled
+
+def mGet : Val → List Val → R Val
+  | .map kvs, [.str key] => R.ofOption (mapGet kvs key)
+  | .map _, [_] => .err
+  | _, _ => .unmodelled
+
+def mPut : Val → List Val → R Val
+  | .map kvs, [.str key, v] => if (mapGet kvs key).isSome then .err else .ok (.map ((key, v) :: kvs))
+  | .map _, [_, _] => .err
+  | _, _ => .unmodelled
+
+def mIsAvail : Val → List Val → R Val
+  | .map kvs, keys => do let r ← allStrKeysPresent kvs keys; pure (.bool r)
+  | _, _ => .unmodelled
+
+def mLen : Val → List Val → R Val
+  | .str s, [] => .ok (.int s.utf8ByteSize)
+  | _, _ => .unmodelled
+
+def mContains : Val → List Val → R Val
+  | .str s, [.str sub] => .ok (.bool (strContains s sub))
+  | .str _, [_] => .err
+  | _, _ => .unmodelled
+
+def mArgs : Val → List Val → R Val
+  | v, [] => match v.closArity with | some n => .ok (.int n) | none => .unmodelled
+  | _, _ => .unmodelled
+
+def mInvoke (ap : Apply) (k : Nat) : Val → List Val → R Val
+  | v, [.list l] =>
       match v.closArity with
       | some n => do
           let xs ← force ap k l
           if xs.length ≠ n then .err else ap v xs
       | none => .unmodelled
-  | _, _, _ => .unmodelled
+  | _, _ => .unmodelled
+
+def methodBody (ap : Apply) (k : Nat) (name : String) (recv : Val) (args : List Val) : R Val :=
+  match name with
+  | "map" => mMap ap k recv args
+  | "accept" => mAccept ap k recv args
+  | "top" => mTop recv args
+  | "skip" => mSkip recv args
+  | "size" => mSize ap k recv args
+  | "eval" => mEval ap k recv args
+  | "string" => mString ap k recv args
+  | "first" => mFirst ap k recv args
+  | "last" => mLast ap k recv args
+  | "reduce" => mReduce ap k recv args
+  | "mapReduce" => mMapReduce ap k recv args
+  | "sum" => mSum ap k recv args
+  | "append" => mAppend ap k recv args
+  | "reverse" => mReverse ap k recv args
+  | "indexWhere" => mIndexWhere ap k recv args
+  | "present" => mPresent ap k recv args
+  | "get" => mGet recv args
+  | "put" => mPut recv args
+  | "isAvail" => mIsAvail recv args
+  | "len" => mLen recv args
+  | "contains" => mContains recv args
+  | "args" => mArgs recv args
+  | "invoke" => mInvoke ap k recv args
+  | _ => .unmodelled
 
 /-- `GetMethod` + the arity test of the `MethodCall` case + the call.
 `known ty name` is the regenerated method table: declared `Args` (receiver included; −1 variadic). -/
